@@ -118,15 +118,18 @@ def pool_names() -> list[str]:
         out += list(td["bound"])
     return sorted(set(out))
 TYPES = {
-    "t0": {"scalars": ["val"], "arrays": ["q"], "objs": {}, "bound": {}},
-    "t1": {"scalars": ["cnt"], "arrays": ["vals"], "objs": {"inner": "t0"},
+    "t0": {"scalars": ["val"], "arrays": ["q"], "objs": {}, "objarrs": {}, "bound": {}},
+    "t1": {"scalars": ["cnt"], "arrays": ["vals"], "objs": {"inner": "t0"}, "objarrs": {"cells": "t2"},
            "bound": {"init": "sub", "get": "fun", "run": "sub"}},
-    "t2": {"scalars": ["cnt"], "arrays": ["w"], "objs": {},
+    "t2": {"scalars": ["cnt"], "arrays": ["w"], "objs": {}, "objarrs": {},
            "bound": {"reset": "sub", "fetch": "fun", "stop_": "sub"}},
 }
-TYPES_COLLIDING = dict(TYPES, t2={"scalars": ["cnt"], "arrays": ["w"], "objs": {},
+TYPES_COLLIDING = dict(TYPES, t2={"scalars": ["cnt"], "arrays": ["w"], "objs": {}, "objarrs": {},
                                   "bound": {"init": "sub", "get": "fun", "stop_": "sub"}})
 OBJS = {"a": "t1", "b": "t2", "c": "t1"}
+# round 6: arrays of derived type - a designator may carry a subscript list on ANY part of its
+# component chain (`oa(i) % vals(j)`, `a%cells(k) % fetch()`), not only on the last one
+OBJ_ARRS = {"oa": "t1", "ob": "t2"}
 SCALARS = ["x", "y", "z", "i", "j", "n", "ok"]
 LABELS = ["10", "20", "30", "100"]
 GOTO_SPELLINGS = ["go to", "goto", "GO TO", "GOTO", "Go To", "go  to", "GoTo"]
@@ -540,6 +543,16 @@ class SpecPart(SpecBase):
                     groups.append([T(r.choice([f"class({t})", f"type({t})", f"class ({t})"]), [r.choice(["intent(inout)", "intent(in)"])], [(o, "")])])
                 else:
                     groups.append([T(f"type({t})", ["target"] if r.random() < 0.15 else [], [(o, "")])])
+        # ---- arrays of objects (round 6)
+        k = r.random()
+        if k < 0.5:
+            groups.append([T("type(t1)", [], [("oa", "(5)")]), T(r.choice(["type(t2)", "type (t2)"]), [], [("ob", "(3)")])])
+        elif k < 0.8:
+            groups.append([T("type(t1)", [r.choice(["dimension(5)", "DIMENSION(5)"])], [("oa", "")]),
+                           T("type(t2)", self.shuffled(["target", "dimension(3)"]), [("ob", "")])])
+        else:
+            groups.append([T("type(t1)", ["allocatable"], [("oa", "(:)")]), T("type(t2)", [], [("ob", "(0:2)")])])
+        note("object-arrays")
         # ---- external procedures
         ext_stmt_names = []
         iface_names = []
@@ -806,6 +819,22 @@ class Gen:
             cands.append((k, v[1]))
         return self.r.choice(cands)
 
+    def chain(self, depth):
+        """(base, base subscripts | None, parts, type of the designated object): a designator of
+        an object of derived type in which some part carries a subscript list"""
+        r = self.r
+        k = r.random()
+        one = lambda: self.subs(depth, 1)
+        if k < 0.3:
+            return "oa", one(), [], "t1"
+        if k < 0.55:
+            return "ob", one(), [], "t2"
+        if k < 0.75:
+            return r.choice(["a", "c"]), None, [("cells", one())], "t2"
+        if k < 0.9:
+            return "oa", one(), [("cells", one())], "t2"
+        return "oa", one(), [("inner", None)], "t0"
+
     def subs(self, depth, n=1):
         out = []
         for _ in range(n):
@@ -848,6 +877,18 @@ class Gen:
             self.note("arrayref")
             names = self.u.arrs + [self.u.garr] + [n for n, _ in self.assoc_names("arr")]
             return ("arr", r.choice(names), self.subs(depth, r.choice([1, 1, 2])))
+        if k < 0.60 and r.random() < 0.45:
+            # round 6: a data reference / bound-function reference through an array of objects
+            b, bs, parts, t = self.chain(depth)
+            td = self.u.types[t]
+            funs = [kk for kk, v in td["bound"].items() if v == "fun"]
+            if funs and r.random() < 0.45:
+                self.note("bound-funref-through-array-element")
+                return ("tbfx", b, bs, parts, t, r.choice(funs), self.args(depth, 0, 2))
+            self.note("component-of-array-element")
+            if r.random() < 0.7:
+                return ("compx", b, bs, parts + [(r.choice(td["arrays"]), self.subs(depth))])
+            return ("compx", b, bs, parts + [(r.choice(td["scalars"]), None)])
         if k < 0.60:
             self.note("component-array")
             o, t = self.obj()
@@ -882,6 +923,13 @@ class Gen:
             return ("var", r.choice(SCALARS))
         if k < 0.75:
             return ("arr", r.choice(self.u.warrs + [self.u.garr]), self.subs(1, 1))
+        if k >= 0.75 and r.random() < 0.35:
+            b, bs, parts, t = self.chain(1)
+            td = self.u.types[t]
+            self.note("assign-to-component-of-array-element")
+            if r.random() < 0.6:
+                return ("compx", b, bs, parts + [(r.choice(td["arrays"]), self.subs(1))])
+            return ("compx", b, bs, parts + [(r.choice(td["scalars"]), None)])
         o, t = self.obj()
         if k < 0.88:
             return ("comp", o, [(r.choice(self.u.types[t]["scalars"]), None)])
@@ -890,6 +938,12 @@ class Gen:
     # ---- simple statements
     def call_stmt(self):
         r = self.r
+        if r.random() < 0.08:
+            b, bs, parts, t = self.chain(0)
+            sbs = [kk for kk, v in self.u.types[t]["bound"].items() if v == "sub"]
+            if sbs:
+                self.note("call-bound-through-array-element")
+                return ("callbx", b, bs, parts, t, r.choice(sbs), self.args(0, 0, 2) if r.random() < 0.7 else None)
         if r.random() < 0.3:
             self.note("call-bound")
             o, t = self.obj()
@@ -1130,7 +1184,18 @@ class Render:
         return self.e(s)
 
     def pct(self):
-        return self.r.choice(["%", "%", "%", " % ", "% "])
+        return self.r.choice(["%", "%", "%", " % ", "% ", " %"])
+
+    def designator(self, b, bs, parts):
+        """`base [(subs)] {% part [(subs)]}`: blanks are free around `%` and in front of `(`"""
+        s = self.name(b)
+        if bs is not None:
+            s += self.sp(0.15) + "(" + self.sp(0.1) + ", ".join(self.sub(x) for x in bs) + self.sp(0.1) + ")"
+        for cname, subs in parts:
+            s += self.pct() + self.name(cname)
+            if subs is not None:
+                s += self.sp(0.15) + "(" + ", ".join(self.sub(x) for x in subs) + ")"
+        return s
 
     def e(self, n):
         t = n[0]
@@ -1151,6 +1216,10 @@ class Render:
                 if subs is not None:
                     s += "(" + ", ".join(self.sub(x) for x in subs) + ")"
             return s
+        if t == "compx":
+            return self.designator(n[1], n[2], n[3])
+        if t == "tbfx":
+            return self.designator(n[1], n[2], n[3]) + self.pct() + self.name(n[5]) + self.sp(0.1) + self.arglist(n[6])
         if t == "tbf":
             return self.name(n[1]) + self.pct() + self.name(n[3]) + self.sp(0.1) + self.arglist(n[4])
         if t == "bin":
@@ -1191,6 +1260,11 @@ class Render:
             s = self.case("call") + " " + self.name(n[1]) + self.pct() + self.name(n[3])
             if n[4] is not None:
                 s += self.sp(0.1) + self.arglist(n[4])
+            return s
+        if t == "callbx":
+            s = self.case("call") + " " + self.designator(n[1], n[2], n[3]) + self.pct() + self.name(n[5])
+            if n[6] is not None:
+                s += self.sp(0.1) + self.arglist(n[6])
             return s
         if t == "goto":
             return n[2] + " " + n[1]
@@ -1299,6 +1373,7 @@ class Render:
 
 
 NO_JOIN = ("labelled", "format", "doc")
+FIXED_SHARE = 0.2     # share of the unit cases written as a fixed-form file (`c.f`)
 
 
 def layout(rng: random.Random, stmts: list[str], feat: set, logical: list | None = None) -> list[str]:
@@ -1395,6 +1470,134 @@ def layout(rng: random.Random, stmts: list[str], feat: set, logical: list | None
         if logical is not None:
             logical.append(joined)
     return lines
+
+
+# --------------------------------------------------------------------------
+# fixed-form layout (round 6): the same statements written as cards
+# --------------------------------------------------------------------------
+
+FIXED_WIDTH = 66                      # columns 7-72
+CONT_MARKS = "&&&123456789+$*.xX>-:"  # any character but blank and `0` in column 6 continues the statement
+SEQ_FIELD = ["DK{n:06d}", "{n:08d}", "MAIN{n:04d}", "! was: call sa(1)", "call fa(2)", " x = fb(1)", ")", "'", "& ",
+             "!", "!! not a doc", "; call sb", "(", "\"it", "        ", "&", ",", "% init()", "C", "= 1"]
+COMMENT_CARDS = ["C     call sa(1)", "c", "*   y = fa(2)", "! note fb(3)", "", "   ", "C", "*", "c$    x = 1", "!     & fa(1)"]
+LOOSE_COMMENT_CARDS = ["      ! col 7 comment, call sb(1)", "          ", "        !x = fa(1)", "                  "]
+
+
+class Card(str):
+    """a physical line that is already laid out in columns"""
+
+
+def fixed_cut_positions(text: str, exact: bool) -> list[int]:
+    """Positions where a statement may be cut into cards.  FORD turns a continued card into
+    `text &` / `text`, which the reader joins with one blank, so a cut is placed where a blank
+    is harmless: next to a blank, or next to `,` `(` `)` `%` (not inside `(/`, `/)`, `()`), always
+    outside character literals.  `exact`: only at a single blank between two non-blanks (the
+    joined text is then character for character the uncut line)."""
+    lit = literal_mask(text)
+    out = []
+    for p_ in range(1, len(text)):
+        a, b = text[p_ - 1], text[p_]
+        if lit[p_ - 1] or lit[p_]:
+            continue
+        if exact:
+            if a == " " and b != " " and p_ >= 2 and text[p_ - 2] != " ":
+                out.append(p_)
+            continue
+        if a == " " or b == " ":
+            out.append(p_)
+        elif (a in ",()%" or b in ",()%") and (a, b) not in (("(", "/"), ("/", ")"), ("(", ")")):
+            out.append(p_)
+    return out
+
+
+def fixed_cards(rng: random.Random, text: str, feat: set, counter: list, exact: bool = False, p_cut: float = 0.2):
+    """One statement line (free-form text, possibly `;`-joined, possibly with a label in front) as
+    fixed-form cards.  Returns (cards, logical line) or None when the text cannot be laid out in
+    columns 7-72 with the cuts allowed."""
+    label = ""
+    body = text
+    m = re.match(r"(\d{1,5})\s+(?=\S)", text)
+    if m and not exact:
+        label, body = m.group(1), text[m.end():]
+    body = body.strip()
+    ind0 = rng.choice(["", "", " ", "  ", "   "])
+    allowed = fixed_cut_positions(body, exact)
+    pieces, start = [], 0
+    first = True
+    while True:
+        width = FIXED_WIDTH - (len(ind0) if first else 3)
+        must = len(body) - start > width
+        if not must and rng.random() >= (p_cut if first else 0.3):
+            break
+        cands = [q for q in allowed if start < q < len(body) and q - start <= width
+                 and body[start:q].strip() and body[q:].strip()]
+        if not cands:
+            if must:
+                return None
+            break
+        q = rng.choice(cands[-6:] if must else cands)
+        pieces.append(body[start:q])
+        start = q
+        first = False
+    pieces.append(body[start:])
+    if len(pieces[-1].strip()) > FIXED_WIDTH - 3:
+        return None
+    cards = []
+    for i, pc in enumerate(pieces):
+        if i == 0:
+            lab5 = "" if not label else rng.choice([label.rjust(5), label.ljust(5), (" " + label).ljust(5)[:5] if len(label) < 5 else label])
+            field = lab5.ljust(5) + rng.choice([" ", " ", " ", "0"]) + ind0 + (pc if exact else pc.strip())
+        else:
+            field = "     " + rng.choice(CONT_MARKS) + rng.choice(["", " ", "  ", "   "]) + pc.strip()
+            feat.add("fixed:continuation-card")
+            if rng.random() < 0.12:
+                cards.append(Card(rng.choice(COMMENT_CARDS)))
+                feat.add("fixed:comment-card-in-continuation")
+        if rng.random() < 0.5:
+            counter[0] += 10
+            seq = rng.choice(SEQ_FIELD).format(n=counter[0])
+            field = field.ljust(72) + seq
+            feat.add("fixed:sequence-field")
+            if i < len(pieces) - 1:
+                feat.add("fixed:sequence-field-on-continued-card")
+        cards.append(Card(field))
+    if len(pieces) > 1:
+        feat.add("fixed:continued-statement")
+    logical = ((label + " " + ind0) if label else "") + " ".join(pc.strip() for pc in pieces)
+    if exact:
+        logical = "".join(pieces)
+    return cards, logical
+
+
+def fixed_layout(rng: random.Random, stmts: list[str], feat: set, logical: list, counter: list):
+    """The executable part as fixed-form cards (`;` joins, continuation cards with any mark in
+    column 6, labels in columns 1-5, comment cards of every style, text in columns 73+).
+    Returns the cards, or None when a statement cannot be laid out."""
+    cards = []
+    k = 0
+    while k < len(stmts):
+        s0 = stmts[k]
+        text = s0
+        special = s0.startswith("!!") or s0[:1].isdigit()
+        while (not special and k + 1 < len(stmts) and rng.random() < 0.12
+               and not stmts[k + 1].startswith("!!") and not stmts[k + 1][:1].isdigit()):
+            k += 1
+            text += rng.choice(["; ", ";", " ; "]) + stmts[k]
+            feat.add("semicolon")
+        k += 1
+        if s0.startswith("!!"):
+            cards.append(Card(rng.choice(["      ", "!", "        "])[:0] + rng.choice(["      " + text, text, "         " + text])))
+            continue
+        r_ = fixed_cards(rng, text, feat, counter)
+        if r_ is None:
+            return None
+        cards += r_[0]
+        logical.append(r_[1])
+        if rng.random() < 0.08:
+            cards.append(Card(rng.choice(COMMENT_CARDS + LOOSE_COMMENT_CARDS)))
+            feat.add("fixed:comment-card")
+    return cards
 
 
 def literal_mask(text: str) -> list[bool]:
@@ -1494,6 +1697,12 @@ class Spec:
             self.invoke(("bound", n[2], n[3]), n[3])
             for a in n[4]:
                 self.e(a)
+        elif t in ("compx", "tbfx"):
+            self.designator(n[1], n[2], n[3])
+            if t == "tbfx":
+                self.invoke(("bound", n[4], n[5]), n[5])
+                for a in n[6]:
+                    self.e(a)
         elif t == "bin":
             self.e(n[2])
             self.e(n[3])
@@ -1508,6 +1717,18 @@ class Spec:
             self.e(n[1]); self.e(n[2])
         else:
             raise ValueError(n)
+
+    def designator(self, b, bs, parts):
+        """the parts of a designator invoke nothing; their subscripts may"""
+        if bs is not None:
+            self.refs.append((b, ("var", b)))
+            for x in bs:
+                self.sub(x)
+        for cname, subs in parts:
+            if subs is not None:
+                self.refs.append((cname, ("component", cname)))
+                for x in subs:
+                    self.sub(x)
 
     def sub(self, s):
         if isinstance(s, tuple) and s[0] == "slice":
@@ -1535,6 +1756,11 @@ class Spec:
         elif t == "callb":
             self.invoke(("bound", n[2], n[3]), n[3])
             for a in n[4] or []:
+                self.e(a)
+        elif t == "callbx":
+            self.designator(n[1], n[2], n[3])
+            self.invoke(("bound", n[4], n[5]), n[5])
+            for a in n[6] or []:
                 self.e(a)
         elif t == "icall":
             for a in n[2]:
@@ -1582,7 +1808,7 @@ class Spec:
         elif t == "labelled":
             inner = n[2]
             tgt = inner[2] if inner[0] == "ifstmt" else inner
-            noarg = (tgt[0] == "call" and tgt[2] is None) or (tgt[0] == "callb" and tgt[4] is None)
+            noarg = (tgt[0] == "call" and tgt[2] is None) or (tgt[0] == "callb" and tgt[4] is None) or (tgt[0] == "callbx" and tgt[6] is None)
             if noarg:
                 # only the CALL itself is in the special context, not the IF condition
                 if inner[0] == "ifstmt":
@@ -1701,6 +1927,8 @@ def module_text(u: Universe) -> list[str]:
             L.append("    real, allocatable :: pvals(:)")
         for o, ot in td["objs"].items():
             L.append(f"    type({ot}) :: {o}")
+        for o, ot in td["objarrs"].items():
+            L.append(f"    type({ot}) :: {o}(4)")
         if td["bound"]:
             L.append("  contains")
             for b in td["bound"]:
@@ -1725,21 +1953,22 @@ def module_text(u: Universe) -> list[str]:
     return L
 
 
-def unit_text(cu, per: dict) -> list[str]:
+def unit_text(cu, per: dict, fixed: bool = False) -> list[str]:
     """physical lines of one unit (with its internal procedures)"""
-    t = [cu.spec.head] + ["  " + d for d in cu.spec.lines()] + per[cu.name]["phys"]
+    t = [cu.spec.head] + [d if fixed else "  " + d for d in cu.spec.lines()] + per[cu.name]["phys"]
     if cu.internals:
         t.append(per[cu.name].get("contains", "contains"))
         for iu in cu.internals:
-            t += ["  " + l for l in unit_text(iu, per)]
+            t += [l if fixed else "  " + l for l in unit_text(iu, per, fixed)]
     t.append(f"end {cu.unit_kind} {cu.name}")
     return t
 
 
-def build_file(u: Universe, per: dict) -> list[str]:
-    """physical lines of the generated file"""
+def build_file(u: Universe, per: dict, fixed: bool = False) -> list[str]:
+    """physical lines of the generated file (`fixed`: the lines of the executable parts are cards
+    already, all other lines are statements still to be laid out in columns)"""
     mod = module_text(u)
-    unit = unit_text(u, per)
+    unit = unit_text(u, per, fixed)
     if u.ctx in ("program", "external"):
         return mod + ["end module m_types", ""] + unit
     if u.ctx == "other-module":
@@ -1779,10 +2008,11 @@ class Impl:
         import ford.reader as rd
         self.fp, self.sf, self.st, self.rd = fp, sf, st, rd
 
-    def reader_lines(self, path: Path) -> list[str]:
+    def reader_lines(self, path: Path, fixed: bool = False) -> list[str]:
         s = self.st.ProjectSettings()
         with common.quiet():
-            return list(self.rd.FortranReader(str(path), s.docmark, s.predocmark, s.docmark_alt, s.predocmark_alt))
+            return list(self.rd.FortranReader(str(path), s.docmark, s.predocmark, s.docmark_alt, s.predocmark_alt,
+                                              fixed=fixed, length_limit=s.fixed_length_limit))
 
     def run(self, srcdir: Path):
         """per unit (the unit under test and its internal procedures): (pre-correlate chains,
@@ -1997,8 +2227,44 @@ def make_case(seed_tuple):
     return rng, u, kinds, bodies
 
 
-def render_case(u: Universe, bodies, layout_seed):
+def render_case_fixed(u: Universe, bodies, layout_seed):
+    """the case as a fixed-form file, or None when some line cannot be laid out in columns 7-72"""
+    rr = random.Random(str((layout_seed, "fixed")))
+    per = {}
+    feat = {"fixed-form"}
+    counter = [0]
+    for cu, body in zip(u.units(), bodies):
+        out = []
+        Render(rr).stmts(body, out)
+        logical = []
+        phys = fixed_layout(rr, out, feat, logical, counter)
+        if phys is None:
+            return None
+        per[cu.name] = {"stmts": out, "phys": phys, "logical": logical}
+    if u.internals:
+        per[u.name]["contains"] = rr.choice(["contains", "contains", "CONTAINS", "Contains"])
+        feat.add("internal-procedures")
+    lines = []
+    for l in build_file(u, per, fixed=True):
+        if isinstance(l, Card):
+            lines.append(str(l))
+        elif not l.strip():
+            lines.append(l)
+        else:
+            # every other line of the file: cut only where the joined text is exactly the line
+            r_ = fixed_cards(rr, l.strip(), feat, counter, exact=True, p_cut=0.08)
+            if r_ is None:
+                return None
+            lines += [str(c) for c in r_[0]]
+    return per, lines, feat
+
+
+def render_case(u: Universe, bodies, layout_seed, form=None):
     rr = random.Random(str(layout_seed))
+    if form != "free" and random.Random(str((layout_seed, "form"))).random() < FIXED_SHARE:
+        fx = render_case_fixed(u, bodies, layout_seed)
+        if fx is not None:
+            return fx
     per = {}
     feat = set()
     for cu, body in zip(u.units(), bodies):
@@ -2041,15 +2307,16 @@ def unit_slices(cu, rl: list[str] | None, start_at: int = 0):
 def evaluate(impl: Impl, u, bodies, layout_seed, d: Path):
     """Run the real code on one case; returns a dict with everything the comparison needs."""
     per, lines, feat = render_case(u, bodies, layout_seed)
+    fixed = "fixed-form" in feat
     src = d / "src"
     src.mkdir(exist_ok=True)
-    for old in src.glob("*.f90"):
+    for old in list(src.glob("*.f90")) + list(src.glob("*.f")):
         old.unlink()
-    path = src / "c.f90"
+    path = src / ("c.f" if fixed else "c.f90")
     path.write_text("".join(l + "\n" for l in lines))
     res = impl.run(src)
     try:
-        rl = impl.reader_lines(path)
+        rl = impl.reader_lines(path, fixed)
     except Exception as e:  # noqa
         rl = None
     units = []
@@ -2062,7 +2329,7 @@ def evaluate(impl: Impl, u, bodies, layout_seed, d: Path):
         units.append({"cu": cu, "name": cu.name, "body": body, "stmts": per[cu.name]["stmts"],
                       "logical": per[cu.name]["logical"], "phys": per[cu.name]["phys"], "unit_lines": sl[0] if sl else None,
                       "exec_statements": sl[1] if sl else None, "impl": r1})
-    return {"lines": lines, "feat": feat, "impl": res, "units": units}
+    return {"lines": lines, "feat": feat, "impl": res, "units": units, "fixed": fixed}
 
 
 def oracle(u: Universe, body, post):
@@ -2179,6 +2446,15 @@ def run(tier: str, seed: int, replay: str | None = None) -> int:
                        f"(Spec/CallsNames.lean): added {Names.added}, no longer withheld {sorted(Names.spec - Names.impl)}",
                        {"stream": "table", "added": Names.added, "dropped": sorted(Names.spec - Names.impl)})
     drv = Driver()
+    # which variant of the fixed-form converter is under test (the three edits of C14's repair): probed
+    try:
+        from ford.fixed2free2 import FortranLine as FL
+        fixed_variant = (("0" if FL("         \n").is_regular else "1")
+                         + ("0" if FL("      ! x\n").is_regular else "1")
+                         + ("1" if FL("      x = 1".ljust(72) + "SEQ\n").excess_line.startswith("! ") else "0"))
+    except Exception as e:  # noqa
+        rep.tie_broken(f"fixed-form: the real FortranLine raised on a probe line: {type(e).__name__}: {e}")
+        fixed_variant = "111"
     rng = random.Random(seed * 7919 + 8)
     n_micro = 7000 if tier == "quick" else 70000
     n_unit = 1500 if tier == "quick" else 15000
@@ -2203,7 +2479,8 @@ def run(tier: str, seed: int, replay: str | None = None) -> int:
         n_units_total = len(flat)
         model = drv.batch([["c08.unit"] + (un["unit_lines"] or []) for _, un in flat])
         model_l = drv.batch([["c08.lines"] + un["logical"] for _, un in flat])
-        model_p = drv.batch([["c08.phys"] + un["phys"] for _, un in flat])
+        model_p = drv.batch([(["c08.fixed", fixed_variant, "1"] + [c + "\n" for c in un["phys"]]) if ev["fixed"]
+                             else ["c08.phys"] + un["phys"] for ev, un in flat])
 
         # the scope of the unit: the specification part as statements (attributes and names as
         # written) -> `unit.variables` after `_cleanup`, and the chains of length 1 `correlate`
@@ -2289,8 +2566,9 @@ def run(tier: str, seed: int, replay: str | None = None) -> int:
                 mop = un["model_p"]
                 if un["exec_statements"] is None or mop[0] != "ok" or mop[1:] != un["exec_statements"]:
                     n_bad_corr += 1
-                    rep.tie_broken(f"correspondence unit/continuation: reader model and reader differ on case {k} ({un['name']})",
-                                   dict(case, physical_lines=un["phys"], reader=un["exec_statements"], model=mop))
+                    rep.tie_broken(f"correspondence unit/{'fixed-form-cards' if ev['fixed'] else 'continuation'}: "
+                                   f"{'converter + ' if ev['fixed'] else ''}reader model and reader differ on case {k} ({un['name']})",
+                                   dict(case, physical_lines=[str(c) for c in un["phys"]], reader=un["exec_statements"], model=mop))
                 # (a') after correlate, chains of length 1
                 post_names = [p[-1] for p in post]
                 kept1 = [c[0] for c in pre if len(c) == 1 and c[0] in post_names]
